@@ -13,6 +13,7 @@ add_listener / addListeners / listenTo / autoBindEvents, removeListener,
 removeListeners, clearHandlers, raiseEvent / raiseEventNoErrors, _eventMixin_get_listener_count, the
 EventHalt... constants and Event.halt.
 """
+import contextlib
 import io
 import logging
 import sys
@@ -76,11 +77,23 @@ class Owner(revent.EventMixin):
   def _handle_EvU(self, ev):          # the source never declares EvU
     return self._rig.invoked(self, "U", ev)
 
-  def _handle_other_EvA(self, ev):    # prefixed: not for a plain autoBind
-    return self._rig.invoked(self, "other", ev)
+  # prefixed methods: bound by autoBindEvents(prefix="other") only, never by a
+  # plain autoBind (and the plain ones never by a prefixed autoBind)
+  def _handle_other_EvA(self, ev):
+    return self._rig.invoked(self, "oA", ev)
+
+  def _handle_other_EvB(self, ev):
+    return self._rig.invoked(self, "oB", ev)
+
+  def _handle_other_EvU(self, ev):    # the source never declares EvU
+    return self._rig.invoked(self, "oU", ev)
 
   def method(self, m):
-    return self.h if m == "h" else getattr(self, "_handle_Ev" + m)
+    if m == "h":
+      return self.h
+    if len(m) == 2 and m[0] == "o":
+      return getattr(self, "_handle_other_Ev" + m[1])
+    return getattr(self, "_handle_Ev" + m)
 
 
 def make_source(types, decl):
@@ -193,6 +206,9 @@ class Adapter(object):
     if a == "Unsubscribe":
       sig["mode"] = args.get("mode")
       sig["handler_weakly_subscribed"] = (args.get("o"), args.get("m")) in self.weakh
+    if a == "AutoBind":
+      sig["prefix"] = args.get("prefix", "")
+      sig["weak"] = args.get("weak")
     if a == "UnsubscribeMany":
       items = args.get("items") or []
       sig["modes"] = sorted(set(it.get("mode") for it in items))
@@ -332,7 +348,19 @@ class Adapter(object):
       prio = self.prio[args["prio"]]
       weak = args["weak"]
       first = self.nsub + 1
-      if args["prio"] == 1 and not weak:
+      prefix = args.get("prefix", "")
+      if prefix:
+        # "You can also set a prefix ...": "other" and "_other" are the same
+        pfx = "_" + prefix if self.hookname == "core" else prefix
+        out = io.StringIO()       # a prefixed autoBind print()s a warning for
+        with contextlib.redirect_stdout(out):   # _handle_other_<undeclared>
+          if args["prio"] == 1 and not weak:
+            res = o.listenTo(src, pfx)
+          elif weak:
+            res = src.addListeners(o, prefix=pfx, weak=True, priority=prio)
+          else:
+            res = revent.autoBindEvents(o, src, pfx, False, prio)
+      elif args["prio"] == 1 and not weak:
         res = o.listenTo(src)
       elif weak:
         res = src.addListeners(o, weak=True, priority=prio)
@@ -340,7 +368,7 @@ class Adapter(object):
         res = revent.autoBindEvents(o, src, priority=prio)
       o = None
       if weak:
-        self.weakh.update((args["o"], t) for t in self.types)
+        self.weakh.update((args["o"], ("o" + t) if prefix else t) for t in self.types)
       byt = {}
       for r in res:
         byt.setdefault(r[0], []).append(r)
